@@ -98,8 +98,9 @@ def record_trace(job):
             if K * N > 12:
                 N = max(1, acc_ns, 12 // K)
             rE = 0 if cls == "BD" else int(rs.randint(1, 4))
-            drv.step(_edge("NewChannel", {"N": N, "rE": rE}), False)
-            ev.append({"op": "NewChannel", "N": N, "rE": rE})
+            sc = int([-7, -3, 0, 0, 4, 7][rs.randint(0, 6)])      # channel-scale regime (path loss / units)
+            drv.step(_edge("NewChannel", {"N": N, "rE": rE, "sc": sc}), False)
+            ev.append({"op": "NewChannel", "N": N, "rE": rE, "sc": sc})
             continue
         rec = {"op": op, "raised": "", "ns": [], "evaluated": [], "holds": []}
         if op == "SolveBD":
